@@ -24,6 +24,8 @@ structure Core where
   activationNone : Bool
   levels : List (Str × Int)                -- most recent binding first
   levelsLookup : List (LKey × Int)
+  /-- `Handler._precolorized_formats` of the colourising handlers: handler id ↦ level names it knows -/
+  precolorized : List (Nat × List Str) := []
   deriving Repr
 
 def Core.init : Core :=
@@ -151,10 +153,16 @@ def add (c : Core) (a : AddArgs) : Core × Out :=
   | .ok f =>
     match mkThreshold c.levels a.level with
     | .error e => (c, .err e)
-    | .ok t => ({ c with handlers := c.handlers ++ [(id, ⟨t, f, a.stopFails⟩)], minLevel := minAdd c.minLevel t }, .id id)
+    | .ok t =>
+      -- `Handler.__init__`: `for level_name in self._levels_ansi_codes: self.update_format(level_name)`
+      let pc := if a.colorize then (id, c.levels.map (·.1)) :: c.precolorized else c.precolorized
+      ({ c with handlers := c.handlers ++ [(id, ⟨t, f, a.stopFails⟩)], minLevel := minAdd c.minLevel t,
+                precolorized := pc }, .id id)
 
 def removeOne (c : Core) (id : Nat) : Core :=
   let hs := c.handlers.filter (fun h => h.1 != id)
+  -- (the removed handler's `_precolorized_formats` go away with the object; ids are never reused, so the
+  -- model simply leaves the entry behind)
   { c with handlers := hs, minLevel := minOf (hs.map (·.2.threshold)) }
 
 /-- `handler.stop()` – the only statement of the `remove` loop body that runs user code -/
@@ -197,8 +205,12 @@ def levelOp (c : Core) (name : Str) (no : NoArg) (other : Bool) : Core × Out :=
   match levelDecision c.levels name no other with
   | .error e => (c, .err e)
   | .ok none => (c, .ok)
-  | .ok (some n) => ({ c with levels := (name, n) :: c.levels,
-                               levelsLookup := (LKey.name name, n) :: c.levelsLookup }, .ok)
+  | .ok (some n) =>
+    -- `for handler in core.handlers.values(): handler.update_format(name)` – unconditionally, and BEFORE the
+    -- level is published in `levels` / `levels_lookup`
+    ({ c with precolorized := c.precolorized.map (fun e => (e.1, name :: e.2)),
+              levels := (name, n) :: c.levels,
+              levelsLookup := (LKey.name name, n) :: c.levelsLookup }, .ok)
 
 /-- `_change_activation` on the rule list, `name` already dotted -/
 def changeAct (al : List (Rule Char)) (name : Str) (s : Bool) : List (Rule Char) :=
@@ -216,16 +228,17 @@ def activate (c : Core) : Option Str → Bool → Core
                | some n => if Gen.actCacheHit n name then (e.1, s) else e
                | none => e) }
 
-/-- level lookup of `_log`, with the int caching -/
-def resolveLevel (c : Core) : LevelArg → Except Err (Core × Int)
+/-- level lookup of `_log`, with the int caching: (state, `level_id`, `level_no`); the id of a level
+given by number is `None` -/
+def resolveLevel (c : Core) : LevelArg → Except Err (Core × Option Str × Int)
   | .bad => .error .typeError
   | .name s => match c.levelsLookup.lookup (.name s) with
-    | some no => .ok (c, no)
+    | some no => .ok (c, some s, no)
     | none => .error .valueError
   | .int i => match c.levelsLookup.lookup (.int i) with
-    | some no => .ok (c, no)
+    | some no => .ok (c, none, no)
     | none => if Gen.logRejectsInt i then .error .valueError
-              else .ok ({ c with levelsLookup := (LKey.int i, Gen.intLevelNo i) :: c.levelsLookup }, Gen.intLevelNo i)
+              else .ok ({ c with levelsLookup := (LKey.int i, Gen.intLevelNo i) :: c.levelsLookup }, none, Gen.intLevelNo i)
 
 def belowMin (no : Int) : Option Int → Bool
   | none => true
@@ -238,26 +251,34 @@ def scan (c : Core) : Option Str → Bool
     | some r => r.2
     | none => true
 
-def emitAll (orc : Oracle) (c : Core) (no : Int) (M : Option Str) : List Nat :=
-  c.handlers.filterMap (fun h => if gate orc h.2 no M then some h.1 else none)
+/-- `self._precolorized_formats[level_id]` inside `Handler.emit` (colourising handler, string format,
+level given by name): a missing entry is a `KeyError` – the message does not reach the sink -/
+def precolorOk (c : Core) (id : Nat) : Option Str → Bool
+  | none => true
+  | some n => match c.precolorized.lookup id with
+    | none => true
+    | some ks => ks.contains n
+
+def emitAll (orc : Oracle) (c : Core) (lid : Option Str) (no : Int) (M : Option Str) : List Nat :=
+  c.handlers.filterMap (fun h => if gate orc h.2 no M && precolorOk c h.1 lid then some h.1 else none)
 
 def lazyCount (lazy : Bool) : Nat := if lazy then 1 else 0
 
 /-- `_log` after the level has been resolved -/
-def logTail (orc : Oracle) (c : Core) (no : Int) (M : Option Str) (lazy : Bool) : Core × Out :=
+def logTail (orc : Oracle) (c : Core) (lid : Option Str) (no : Int) (M : Option Str) (lazy : Bool) : Core × Out :=
   if belowMin no c.minLevel then (c, .delivered [] 0) else
   match c.enabled.lookup M with
-  | some st => if st then (c, .delivered (emitAll orc c no M) (lazyCount lazy)) else (c, .delivered [] 0)
+  | some st => if st then (c, .delivered (emitAll orc c lid no M) (lazyCount lazy)) else (c, .delivered [] 0)
   | none =>
     let st := scan c M
     let c := { c with enabled := (M, st) :: c.enabled }
-    if st then (c, .delivered (emitAll orc c no M) (lazyCount lazy)) else (c, .delivered [] 0)
+    if st then (c, .delivered (emitAll orc c lid no M) (lazyCount lazy)) else (c, .delivered [] 0)
 
 def log (orc : Oracle) (c : Core) (lv : LevelArg) (M : Option Str) (lazy : Bool) : Core × Out :=
   if c.handlers.isEmpty then (c, .delivered [] 0) else
   match resolveLevel c lv with
   | .error e => (c, .err e)
-  | .ok r => logTail orc r.1 r.2 M lazy
+  | .ok r => logTail orc r.1 r.2.1 r.2.2 M lazy
 
 /-- every operation except `configure` -/
 def prim (orc : Oracle) (c : Core) : Op → Core × Out
@@ -296,6 +317,18 @@ def step (orc : Oracle) (c : Core) : Op → Core × Out
 def run (orc : Oracle) : Core → List Op → List Out
   | _, [] => []
   | c, op :: rest => let r := step orc c op; r.2 :: run orc r.1 rest
+
+/-- NOT the code: the refuted shape "refresh the handlers' pre-colourised formats only when the colour
+changed" – a level created without a colour is never announced to the handlers registered before it.
+Only used by the witness theorem `C01.stale_precolorized_formats_refuted`. -/
+def levelOpStale (c : Core) (name : Str) (no : NoArg) (colourChanged : Bool) : Core × Out :=
+  match levelDecision c.levels name no colourChanged with
+  | .error e => (c, .err e)
+  | .ok none => (c, .ok)
+  | .ok (some n) =>
+    ({ c with precolorized := if colourChanged then c.precolorized.map (fun e => (e.1, name :: e.2)) else c.precolorized,
+              levels := (name, n) :: c.levels,
+              levelsLookup := (LKey.name name, n) :: c.levelsLookup }, .ok)
 
 /-- the state after a history -/
 def final (orc : Oracle) : Core → List Op → Core
